@@ -164,7 +164,10 @@ class G:
         n = self.uid()
         w, t2 = self.wrong("int")
         # an alias is a TYPE name (also the alias of a class): it cannot be used as a value
-        base = ["v%d: Miles = %s" % (n, self.e("int")), "type PA%d Pt" % n, "va%d: PA%d = gp" % (n, n), "vb%d = va%d.x" % (n, n)]
+        # the last four lines: unary minus applied to a NAME whose type is the alias of a number -- the type checker looks
+        # through the alias, so the code generator must as well (it refused with the bare text `cannot negate`: hunt 4 B/3)
+        base = ["v%d: Miles = %s" % (n, self.e("int")), "type PA%d Pt" % n, "va%d: PA%d = gp" % (n, n), "vb%d = va%d.x" % (n, n),
+                "vn%d = -v%d" % (n, n), "type FA%d float" % n, "vf%d: FA%d = 2.5" % (n, n), "vg%d = -vf%d * 2.0" % (n, n)]
 
         def mut(i, line):
             m = list(base)
@@ -1424,6 +1427,10 @@ def run(ctx):
             discarded.append({"program": text[len(PREAMBLE):][:600], "rc": r[0], "why": why[0], "source": src})
             if r[0] == 101:
                 ctx.report("panic:base-program", "compiler panic on a well-typed generated program: %s" % r[2][-300:], {"files": files_of(text, wl)})
+            elif r[0] == 1 and "Did not compile successfully" in r[2] and not DIAG.search(r[1]):
+                # whatever is refused must be refused with a diagnostic that names file and position
+                ctx.report("no-position:base-program", "a generated program is refused without any diagnostic naming a file and position: %s" % (r[1] + r[2]).strip()[:200],
+                           {"files": files_of(text, wl), "rc": r[0], "output": (r[1] + r[2])[-600:]})
             else:
                 # every template's unmutated program is accepted by the unchanged tree: a rejected one means a VALID program is
                 # no longer accepted, and all the mutants of that program go unchecked -- that is reported, not skipped
